@@ -115,6 +115,10 @@ def f_show(f):
     return f"ite({f_show(f[1])}, {f_show(f[2])}, {f_show(f[3])})"
 
 
+# one-bit signals by protocol definition (Wishbone B4 control lines; CSR / field / event strobes) -- A4
+PROTOCOL_BITS = {"cyc", "stb", "we", "ack", "err", "rty", "stall", "lock", "r_stb", "w_stb", "trg"}
+
+
 class Widths:
     """Best-effort knowledge of which expressions are one bit wide (declared shapes only)."""
 
@@ -128,7 +132,7 @@ class Widths:
             for name, ds in index.members(c).items():
                 for flow, shape, conds, ln, arr in ds:
                     decl.setdefault(name, []).append(self._shape_is_bit(shape) and not arr)
-        self.global_bits = {n for n, v in decl.items() if all(v)}
+        self.global_bits = {n for n, v in decl.items() if all(v)} | (PROTOCOL_BITS - {n for n, v in decl.items() if not all(v)})
         self.own = {}
         self.own_signal = set()
         if cls is not None:
@@ -406,10 +410,11 @@ class Engine:
 class DL:
     """Decision list of one target: entries (formula, value IR) highest priority first + default."""
 
-    def __init__(self, entries, default, label=""):
+    def __init__(self, entries, default, label="", target=None):
         self.entries = entries
         self.default = default          # value IR, or ('hold',)
         self.label = label
+        self.target = target            # normalised target IR: assigning the target to itself is "hold"
 
     def show(self):
         parts = [f"{f_show(g)} -> {ir.show(v)}" for g, v in self.entries]
@@ -424,7 +429,8 @@ def build(engine, drivers, default, include_gen=True):
     """drivers: all drivers of one (domain, target).  Later emission = higher priority."""
     ds = sorted(drivers, key=lambda d: (d.order, d.seqno), reverse=True)
     entries = [(engine.guard(d, include_gen), d.value) for d in ds]
-    return DL(entries, default)
+    target = engine.norm(ds[0].target) if ds else None
+    return DL(entries, default, target=target)
 
 
 def expected(engine, table, default):
@@ -435,7 +441,10 @@ def expected(engine, table, default):
 def _pick(engine, dl, val):
     for g, v in dl.entries:
         if f_eval(g, val):
-            return engine.eval_value(v, val)
+            r = engine.eval_value(v, val)
+            if dl.target is not None and dl.default == HOLD and r == ('sym', ir.show(dl.target)):
+                return ('hold',)                        # x <= x
+            return r
     if dl.default == HOLD:
         return ('hold',)
     return engine.eval_value(dl.default, val)
